@@ -162,6 +162,19 @@ def check_case(ctx, case):
 
 # ----------------------------------------------------------------- histories
 
+def as_type(v, t):
+    """the same number in another of the types a default may be stored in (numpy scalars of any width, Python int)"""
+    if t == 'int' and float(v) == int(v):
+        return int(v)
+    if t in ('np.int64', 'np.int32') and float(v) == int(v):
+        return getattr(np, t[3:])(int(v))
+    if t == 'np.float32' and float(np.float32(v)) == float(v):
+        return np.float32(v)
+    if t == 'np.float64':
+        return np.float64(v)
+    return v
+
+
 def check_history(ctx, case):
     """random operation history against (i) a fresh-copy oracle (predicate) and (ii) the Lean
     state machine (correspondence of the parameter resolution)."""
@@ -175,10 +188,10 @@ def check_history(ctx, case):
     for step, op in enumerate(case['ops']):
         k = op['op']
         if k == 'setglobal':
-            setattr(pe.Obs, op['name'] + '_global', op['val'])
+            setattr(pe.Obs, op['name'] + '_global', as_type(op['val'], op.get('vtype')))
             sh_glob[op['name']] = op['val']
         elif k == 'setdict':
-            getattr(pe.Obs, op['name'] + '_dict')[op['ens']] = op['val']
+            getattr(pe.Obs, op['name'] + '_dict')[op['ens']] = as_type(op['val'], op.get('vtype'))
             sh_dict[op['name']][op['ens']] = op['val']
         elif k == 'deldict':
             getattr(pe.Obs, op['name'] + '_dict').pop(op['ens'], None)
@@ -338,12 +351,14 @@ def gen_history(ctx):
         k = rng.choice(['setglobal', 'setdict', 'deldict', 'gm', 'gm', 'gm', 'arith'])
         if k == 'setglobal':
             nm = rng.choice(['S', 'tau_exp', 'N_sigma'])
-            ops.append({'op': k, 'name': nm, 'val': rng.choice(vals if nm != 'tau_exp' else [0.0, 0.0, 1.0, 3.7])})
+            ops.append({'op': k, 'name': nm, 'val': rng.choice(vals if nm != 'tau_exp' else [0.0, 0.0, 1.0, 3.7]),
+                        'vtype': rng.choice([None, None, 'int', 'np.int64', 'np.int32', 'np.float32', 'np.float64'])})
         elif k in ('setdict', 'deldict'):
             nm = rng.choice(['S', 'tau_exp', 'N_sigma'])
             op = {'op': k, 'name': nm, 'ens': rng.choice(enss)}
             if k == 'setdict':
                 op['val'] = rng.choice(vals if nm != 'tau_exp' else [0.0, 0.0, 1.0, 3.7])
+                op['vtype'] = rng.choice([None, None, 'int', 'np.int64', 'np.int32', 'np.float32', 'np.float64'])
             ops.append(op)
         elif k == 'gm':
             kw = {}
